@@ -27,6 +27,12 @@ type c09Scenario struct {
 	GenSel bool
 	Second int // sync index at which a second template change arrives (-1 none)
 	Paths  bool // revisionHistory.fieldPaths = [spec.optional, spec.template], spec.optional never set (default: all of spec)
+	// Twin: two rolling child kinds with the same Kind and plural ("Widget"/"widgets"), one in apps.ex and one in the
+	// core group, with the same child names: records are per (group, kind, name)
+	Twin bool
+	// TwinCoreFirst: which of the two same-Kind entries comes first in the children list of the revision the
+	// rollout starts from (the controller builds that list in map order; the harness pins it, both ways)
+	TwinCoreFirst bool
 }
 
 type c09Dev struct {
@@ -127,7 +133,8 @@ func (x *rollWorld) cutInvariants(atCut bool) string {
 		v := kit.Str(pp, "spec", "template", "ver")
 		for _, g := range kit.List(r, "children") {
 			for _, nm := range kit.List(g, "names") {
-				claims[nm.(string)] = append(claims[nm.(string)], v)
+				key := kit.Str(g, "apiGroup") + "|" + nm.(string)
+				claims[key] = append(claims[key], v)
 			}
 		}
 	}
@@ -145,13 +152,24 @@ func (x *rollWorld) cutInvariants(atCut bool) string {
 			return fmt.Sprintf("child %s is recorded in %d revisions %v (atCut=%v)", name, len(vs), vs, atCut)
 		}
 	}
-	for _, c := range x.Sim.All(x.ck) {
+	var existing []kit.M
+	for _, k := range []*sim.Kind{x.ck, x.ck2} {
+		if k != nil {
+			existing = append(existing, x.Sim.All(k)...)
+		}
+	}
+	for _, c := range existing {
 		name := kit.Name(c)
 		var idx int
 		fmt.Sscanf(name, "w%d", &idx)
 		if int64(idx) >= replicas {
 			continue
 		}
+		grp := ""
+		if av := kit.Str(c, "apiVersion"); strings.Contains(av, "/") {
+			grp = av[:strings.Index(av, "/")]
+		}
+		name = grp + "|" + name
 		vs := claims[name]
 		// an existing, still desired child stays on record while the revision it was assigned to lives on: a child
 		// that changes hands is first added to the latest record, then dropped from the old one (in both for a
@@ -226,6 +244,10 @@ func TestVerifC09(t *testing.T) {
 							continue
 						}
 						c09Scenario1(r, c09Scenario{N: n, Method: method, GenSel: gs, Second: second, Paths: paths})
+						if !paths && second == -1 && n <= 2 {
+							c09Scenario1(r, c09Scenario{N: n, Method: method, GenSel: gs, Second: second, Twin: true})
+							c09Scenario1(r, c09Scenario{N: n, Method: method, GenSel: gs, Second: second, Twin: true, TwinCoreFirst: true})
+						}
 					}
 				}
 			}
@@ -239,6 +261,9 @@ func c09Scenario1(r *mc.Report, sc c09Scenario) {
 	}
 	defer func() { rollFieldPaths = nil }()
 	x := newRollWorld(sc.N, false, "widgets", sc.Method, true, sc.GenSel)
+	if sc.Twin {
+		x = newRollWorld2(sc.N, sc.Method, sc.GenSel)
+	}
 	opt := ccOptOf(x)
 	viol := func(dev interface{}, key, format string, a ...interface{}) {
 		r.Violate("C09:"+key, fmt.Sprintf("%+v %+v: ", sc, dev)+fmt.Sprintf(format, a...), kit.M{"scenario": fmt.Sprintf("%+v", sc), "deviation": fmt.Sprintf("%+v", dev)})
@@ -248,6 +273,22 @@ func c09Scenario1(r *mc.Report, sc c09Scenario) {
 			viol(nil, "setup", "initial sync failed: %v %v", err, p)
 			return
 		}
+	}
+	if sc.Twin {
+		for _, rev := range x.Sim.All(world.RevisionKind) {
+			x.Sim.Edit(world.RevisionKind, kit.NS(rev), kit.Name(rev), func(o map[string]interface{}) {
+				ch, _ := o["children"].([]interface{})
+				sort.SliceStable(ch, func(i, j int) bool {
+					gi, gj := kit.Str(ch[i], "apiGroup"), kit.Str(ch[j], "apiGroup")
+					if sc.TwinCoreFirst {
+						return gi < gj // "" (core) sorts first
+					}
+					return gi > gj
+				})
+				o["children"] = ch
+			})
+		}
+		x.DeliverAll()
 	}
 	x.edit("tpl", "v2")
 	bound := 3*sc.N + 8
@@ -272,7 +313,7 @@ func c09Scenario1(r *mc.Report, sc c09Scenario) {
 			return
 		}
 		st, _, _ := x.updatedCondition()
-		if x.allAt(target, sc.N) && st == "True" && len(x.revisions()) == 1 && i >= sc.Second {
+		if x.allAt(target, sc.N) && (!sc.Twin || x.allAt2(target, sc.N)) && st == "True" && len(x.revisions()) == 1 && i >= sc.Second {
 			baseDone = true
 			// two more quiet rounds so that the baseline essence is a fixpoint
 			x.round()
